@@ -94,6 +94,7 @@ def parseSc (j : Json) : Sc :=
   | some "int" => .int ((getInt j "v").getD 0)
   | some "float" => .float ((getInt j "b").getD 0).toNat
   | some "str" => .str ((getChars j "s").getD [])
+  | some "char16" => .char16 ((getChars j "s").getD [])
   | some "bytes" => .bytes (natsOf j "s")
   | some "cimint" => .cimInt ((IntTy.ofName? ((getStr j "ty").getD "")).getD .uint8) ((getInt j "v").getD 0)
   | some "real32" => .real32 ((getInt j "b").getD 0).toNat
@@ -119,6 +120,7 @@ def scToJson : Sc → Json
   | .int v => Json.mkObj [("k", "int"), ("v", intToJson v)]
   | .float b => Json.mkObj [("k", "float"), ("b", intToJson b)]
   | .str s => Json.mkObj [("k", "str"), ("s", cpsToJson s)]
+  | .char16 s => Json.mkObj [("k", "char16"), ("s", cpsToJson s)]
   | .bytes s => Json.mkObj [("k", "bytes"), ("s", Json.arr (s.map (fun (n : Nat) => (n : Json))).toArray)]
   | .cimInt t v => Json.mkObj [("k", "cimint"), ("ty", t.name), ("v", intToJson v)]
   | .real32 b => Json.mkObj [("k", "real32"), ("b", intToJson b)]
@@ -145,13 +147,13 @@ def scalarsOf (j : Json) : List Json :=
 def envOf (scalars : List Json) : Env :=
   { pyFloat := fun isB cps =>
       (scalars.find? (fun j =>
-        (getStr j "k" == some (if isB then "bytes" else "str")) &&
+        (if isB then getStr j "k" == some "bytes" else (getStr j "k" == some "str" || getStr j "k" == some "char16")) &&
         ((if isB then natsOf j "s" else ((getChars j "s").getD []).map Char.toNat) == cps))).bind
         (fun j => (getInt j "pf").map Int.toNat)
     utf8 := fun b =>
       (scalars.find? (fun j => getStr j "k" == some "bytes" && natsOf j "s" == b)).bind (fun j => getChars j "u8")
     uri := fun s =>
-      (scalars.find? (fun j => getStr j "k" == some "str" && (getChars j "s").getD [] == s)).bind
+      (scalars.find? (fun j => (getStr j "k" == some "str" || getStr j "k" == some "char16") && (getChars j "s").getD [] == s)).bind
         (fun j => getBool j "uri") }
 
 def handle (j : Json) : Json :=
